@@ -224,6 +224,34 @@ pub fn run(run: &mut Run) {
                 return Some(("write-refused".into(), format!("`{}` -> {}", o.line, o.resp)));
             }
         }
+        // "resolved in favour of the most recently issued change": an accepted increment and an
+        // accepted versioned write of one execution - the one whose change was created later (by the
+        // node's own clock) is the one the key must hold
+        if ops.len() == 2 && ops.iter().all(|o| o.resp == "Ok") {
+            let inc = ops.iter().find(|o| o.line == "increment k");
+            let ss = ops.iter().find(|o| o.line.starts_with("set-safe k "));
+            if let (Some(inc), Some(ss), Some(cur)) = (inc, ss, fin.get("k")) {
+                if let (Some(ti), Some(ts)) = (inc.ticks.first(), ss.ticks.first()) {
+                    let ss_val = ss.line.rsplit(' ').next().unwrap_or("");
+                    let holds_ss = cur.0 == ss_val;
+                    if (ts > ti) != holds_ss {
+                        // Known on the base tree: the stale check (set_value -> VersionError) and the
+                        // resolution are two lock acquisitions; if the versioned write's check ran
+                        // BEFORE the increment was applied, the resolution still compares against the
+                        // value captured then and overwrites the increment.  That case is told apart
+                        // by the schedule: the write's first map-lock acquisition precedes the increment's.
+                        let sched = super::c02_ilv::LAST_SCHEDULE.with(|l| l.borrow().clone());
+                        let first_write = |tid: usize| sched.iter().position(|p| p.starts_with(&format!("t{} write bo.rs", tid)));
+                        let early_check = match (first_write(ss.tid), first_write(inc.tid)) {
+                            (Some(a), Some(b)) => a < b,
+                            _ => false,
+                        };
+                        let clause = if early_check && holds_ss { "older-change-won-after-early-version-check" } else { "older-change-won" };
+                        return Some((clause.into(), format!("`{}` created its change at clock {}, `increment k` at {}; both were accepted and the key holds {:?}", ss.line, ts, ti, cur.0)));
+                    }
+                }
+            }
+        }
         let (val, ver) = match fin.get("k") {
             Some(v) => (v.0.clone(), v.1),
             None => return Some(("last-write-lost".into(), "key k vanished".into())),
